@@ -537,6 +537,39 @@ def build_mutations(tier, seed, wd):
     return out
 
 
+def cli_option_grid(V, wd):
+    """Every option of the acb binary with hostile values, one at a time and in pairs, on a small valid input: the run
+    must end in a report or a message, never in a panic (exit 101) or a signal."""
+    inp = os.path.join(wd, "grid.csv")
+    with open(inp, "w") as f:
+        f.write(VALID_SEED_CSV)
+    dates = ["2016-03-01", "2016-3-1", "2016", "", "2016-03-0\u0661", "20160301", "2016-03-01T00:00:00", "2016-13-40", "next january", " 2016-03-01", "9999-12-31", "0000-01-01"]
+    fmts = ["[year]-[month]-[day]", "[bogus]", "", "[year", "%Y-%m-%d", "[day]/[month]/[year]", "[year]-[month]-[day] [hour]"]
+    bases = [["FOO:1:1"], ["FOO:1:1", "FOO:2:2"], ["FOO:20:200.00", "FOO:5:70.00"], ["BAR:1:1", "BAR:0:0"], ["FOO"], [""], [" "], ["FOO:1:1", ""], ["foo:1:1", "FOO:1:1"],
+             ["FOO:1e3:1"], ["FOO:1:1:1"], ["FOO:\u0661:1"], ["FOO:1:-0"], ["FOO:0:5"]]
+    outs = [os.path.join(wd, "grid-out"), os.path.join(wd, "grid-out", "nested", "deeper"), inp, "", "/proc/nonexistent/x"]
+    grid = [["--summarize-before", d] for d in dates] + [["--summarize-before", d, "--summarize-annual-gains"] for d in dates[:6]]
+    grid += [["--date-fmt", x] for x in fmts]
+    grid += [sum((["-b", b] for b in bs), []) for bs in bases]
+    grid += [sum((["-b", b] for b in bs), []) + extra for bs in bases[:4] for extra in (["--total-costs"], ["--summarize-before", "2016-04-01"], ["-d", outs[0]])]
+    grid += [["-d", o] for o in outs] + [["-d", outs[0], "--total-costs", "--print-full-values"], ["--summarize-annual-gains"], ["-v", "-f"],
+                                         ["--total-costs", "--summarize-before", "2016-04-01"], ["-d", outs[0], "--summarize-before", "2016-04-01"]]
+
+    def one(extra):
+        return extra, common.run_cli("acb", [inp] + extra, home=wd, timeout=60)
+    for extra, r in common.pmap(one, grid):
+        V.count()
+        V.bump("binary_option_runs")
+        err = r["err"].decode("utf-8", "replace")
+        if r["rc"] == "timeout":
+            V.violation("acb %s did not terminate within 60 s" % extra, {"kind": "cli_options", "prop": PROP, "args": extra}, {"what": "binary hangs on options"})
+        elif r["rc"] not in (0, 1, 2) or "panicked at" in err:
+            V.violation("acb %s panicked / was killed: rc=%s %s" % (extra, r["rc"], err[-250:]), {"kind": "cli_options", "prop": PROP, "args": extra},
+                        {"what": "binary panics on options"})
+        elif r["rc"] != 0 and not err.strip():
+            V.violation("acb %s failed without a message" % extra, {"kind": "cli_options", "prop": PROP, "args": extra}, {"what": "binary fails silently on options"})
+
+
 def cli_sample(V, tier, seed, muts, wd):
     """The real acb binary on a sample: exit status, signals, 'panicked at', and report/diagnostic presence."""
     k = {"quick": 250, "thorough": 4000}[tier]
@@ -624,6 +657,7 @@ def run(tier):
             V.extra["case_time_us_median"] = times[len(times) // 2]
             V.extra["case_time_us_max"] = times[-1]
         cli_sample(V, tier, seed, muts, wd)
+        cli_option_grid(V, wd)
         try:
             import c05_periph
             c05_periph.run_into(V, tier, seed)
